@@ -478,6 +478,8 @@ class Evaluator:
                 p = self.val(argv[0], env)
                 v, n = self.val(argv[1], env), self.val(argv[2], env)
                 off = p - Poly.sym("out")
+                if any(sy.startswith("stack") for sy in p.symbols()):
+                    return None               # zero-fill of a stack temporary (floating point data): not part of the index algebra
                 if not (off.is_const() and v.is_const() and v.const_value() == 0 and n.is_const()):
                     raise Inconclusive("memset that is not a constant zero fill of the out array")
                 o, n = int(off.const_value()), int(n.const_value())
@@ -512,6 +514,12 @@ class Evaluator:
                     env[dst] = atom("ext", callee, len(self.extcalls))
                 return None
             raise Inconclusive("call to %s not inlined in %s" % (callee, fname))
+        if op == "extractvalue":
+            mm = re.match(r"^extractvalue (.+) (%[\w.]+), (\d+)$", rhs)
+            if mm:
+                agg = self.val(mm.group(2), env)
+                env[dst] = atom("xv", agg, int(mm.group(3)))       # a field of an opaque aggregate (result of an external routine)
+                return None
         if op == "alloca":
             self.nstack = getattr(self, "nstack", 0) + 1
             env[dst] = Poly.sym("stack%d" % self.nstack)
